@@ -225,6 +225,10 @@ func replyIsOutcome(r refrpc.Response, in Invocation) bool {
 	case in.Ret == "ok":
 		var tok sim.Token
 		return !r.IsError && json.Unmarshal(r.Result, &tok) == nil && tok.Inv == in.Inv && tok.K == in.K
+	case strings.HasPrefix(in.Ret, "errnomsg:"):
+		var c int
+		fmt.Sscanf(in.Ret[len("errnomsg:"):], "%d", &c)
+		return r.IsError && r.Code == c && r.Message == ""
 	case len(in.Ret) > 4 && in.Ret[:4] == "err:":
 		var c int
 		fmt.Sscanf(in.Ret[4:], "%d", &c)
